@@ -10,11 +10,13 @@ fn main() {
     entries.sort_by_key(|e| e.file_name());
     for e in entries {
         let fname = e.file_name().into_string().unwrap();
-        if !(fname.starts_with('c') && fname.ends_with(".rs") && fname.len() == 6) {
+        let stem = fname.trim_end_matches(".rs");
+        if !(fname.starts_with('c') && fname.ends_with(".rs") && (stem.len() == 3 || stem.ends_with("_auto"))) {
             continue;
         }
-        let module = &fname[..3];
-        if env::var(format!("CARGO_FEATURE_{}", module.to_uppercase())).is_err() {
+        let module = stem;
+        let feature = &stem[..3];
+        if env::var(format!("CARGO_FEATURE_{}", feature.to_uppercase())).is_err() {
             continue;
         }
         let text = fs::read_to_string(e.path()).unwrap();
